@@ -24,7 +24,7 @@ type c10 struct{}
 func (c10) ID() string    { return "C10" }
 func (c10) Level() string { return "exploration" }
 func (c10) Rule() string {
-	return "cases = base CNF problems (T2 with <=2 clauses, S3 with <=3 clauses, D3-style single clauses with units, a few conflict-rich seeds; with and without unit clauses / parse-time facts, and parse-time Unsat) x every sequence of <=3 rounds (quick; 1-2 rounds on larger bases), each round = Assume(list) with every list of <=2 literals (empty, repeated literal, contradictory pair) followed by Solve unless Assume already answered Unsat; x heuristic choice list (<=1 deviation). Oracle per round: truth table of base AND this round's assumptions only. Non-trivial = at least one round had a non-empty assumption list and the verdicts of the rounds are not all equal, or some round met a conflict."
+	return "cases = base CNF problems (T2 with <=2 clauses, S3 with <=3 clauses, D3-style single clauses with units, a few conflict-rich seeds, and the 'chain' family (every 3..5-clause subset of a 14-clause menu over 5 variables in which assumptions propagate through implication chains before a conflict); with and without unit clauses / parse-time facts, and parse-time Unsat) x every sequence of <=3 rounds (quick; 1-2 rounds on larger bases), each round = Assume(list) with every list of <=2 literals (empty, repeated literal, contradictory pair) followed by Solve unless Assume already answered Unsat; x heuristic choice list (<=1 deviation). Oracle per round: truth table of base AND this round's assumptions only. Non-trivial = at least one round had a non-empty assumption list and the verdicts of the rounds are not all equal, or some round met a conflict."
 }
 func (c10) Assumptions() []string {
 	return []string{"truth-table reference is correct", "assumed literals mention declared variables only"}
@@ -84,6 +84,35 @@ func (c10) Enumerate(tier string, seed int64, yield func(string, core.Case) bool
 				if !emitRounds("S3units", cnfProb("slicenb", f, 3, 3), 3, 2, 0) {
 					return
 				}
+			}
+		}
+	}
+	// "chain" family: assumptions whose consequences are propagated at the top level through a
+	// chain of implications, followed by a conflict among the remaining variables; every subset of
+	// 3..5 clauses of a 14-clause menu over 5 variables x (first round on the chain variables,
+	// second round on any variable or none)
+	{
+		menu := [][]int{{-1, 2}, {-2, 3}, {-1, 3}, {1, 2}, {-3, -4, 5}, {-3, -4, -5}, {-2, 4, 5}, {4, -5}, {3, 4}, {-3, 4, -5}, {2, -4, 5}, {-1, -5, 4}, {1, -2, -4}, {-4, 5}}
+		first := litSeqs(3, 1, 1)
+		second := append([][]int{{}}, litSeqs(5, 1, 1)...)
+		for k := 3; k <= 5; k++ {
+			ok := subsets(len(menu), k, func(idx []int) bool {
+				base := cnfProb("slicenb", pick(menu, idx), 5, 5)
+				dev := 0
+				if k == 3 {
+					dev = 1
+				}
+				for _, a := range first {
+					for _, b := range second {
+						if !yield("chain", AssumeCase{Base: base, Rounds: [][]int{a, b}, Dev: dev}) {
+							return false
+						}
+					}
+				}
+				return true
+			})
+			if !ok {
+				return
 			}
 		}
 	}
